@@ -143,20 +143,26 @@ def gen_new_batch(r: random.Random, canonical_ms=True):
     }
 
 
-def impl_write(batch_obj, lead: bytes = b""):
-    """write_batch into a buffer that already holds `lead`; returns what was appended"""
+def impl_write(batch_obj, lead: bytes = b"", stale: bytes = b""):
+    """write_batch into a buffer that already holds `lead` before the write position and `stale` after it (a reused or
+    pre-sized buffer); returns what was written at the position"""
     from kio.records.writers import write_batch
 
     buf = io.BytesIO()
     buf.write(lead)
+    buf.write(stale)
+    buf.seek(len(lead))
     try:
         write_batch(buf, batch_obj)
     except Exception as e:  # noqa
         return ("err", err_name(e))
+    end = buf.tell()
     out = buf.getvalue()
     if out[:len(lead)] != lead:
         return ("err", "Other:OverwroteEarlierBytes")
-    return ("ok", out[len(lead):])
+    if stale and out[end:] != stale[end - len(lead):]:
+        return ("err", "Other:TouchedBytesBehindTheBatch")
+    return ("ok", out[len(lead):end])
 
 
 def impl_read(data: bytes):
